@@ -27,7 +27,7 @@ def step_input(ctx, helper, kind, n, lay, tag=""):
     if helper == "quantile":
         q = symx.sym_f64("q" + tag); ctx.assume(z3.And(z3.fpGEQ(q, symx.fpval(0.0)), z3.fpLEQ(q, symx.fpval(1.0))))
         st["q"] = SymF64(q)
-    if helper in ("mode", "count_unique") and kind in ("f", "D") and st["drop_na"] in ((None, False) if helper == "count_unique" else (False,)):
+    if helper in ("mode", "count_unique") and kind in ("f", "D", "td", "us") and st["drop_na"] in ((None, False) if helper == "count_unique" else (False,)):
         for c in st["x"].cells: ctx.assume(z3.Not(isna(c, kind)))
         ctx.assumptions.append("mode / count_unique with missing values not dropped: inputs without NaN/NaT (as in C07)")
     return st
